@@ -8,7 +8,7 @@
 From Coq Require Import Reals Lra List.
 From D3 Require Import Base.Ops Base.Vec Base.RVec Base.RVec2 Spec.Convex Spec.Prims Model.DistPrim
   Proofs.DistBase Proofs.DistPoint Proofs.DistRect
-  Proofs.DistTriangle Proofs.DistRound Proofs.DistLine Proofs.DistPlane.
+  Proofs.DistTriangle Proofs.DistRound Proofs.DistLine Proofs.DistPlane Proofs.DistPlaneHull.
 Local Open Scope R_scope.
 (* [exists d c1 c2, f args = (d, c1, c2) /\ _]: name the components of the model's result *)
 Ltac ex3 := match goal with |- exists d c1 c2, ?e = _ /\ _ =>
@@ -240,3 +240,44 @@ Theorem C11_plane_to_triangle_refuted :
 Proof. exact plane_to_triangle_optimal_refuted. Qed.
 Print Assumptions C11_plane_to_triangle_refuted.
 
+
+(** plane_to_rectangle / plane_to_box (the general [plane_to_points] theorem for any non-empty vertex list, instantiated):
+    PARTIAL in the same sense as plane_to_triangle: outside the hard-wired 1e-6 band ([points_band_ok]); inside it refuted *)
+Theorem C11_plane_to_rectangle_partial (pp pn c a0 a1 : V3R) (l0 l1 : R) d c1 c2 arm :
+  dot pn pn = 1 -> 0 <= l0 -> 0 <= l1 -> plane_rectangle_band_ok pp pn c a0 a1 l0 l1 ->
+  plane_to_rectangle pp pn c a0 a1 l0 l1 = (d, c1, c2, arm) ->
+  optimal (plane_set pp pn) (rectangle_set c a0 a1 l0 l1) d.
+Proof. exact (plane_to_rectangle_optimal_partial pp pn c a0 a1 l0 l1 d c1 c2 arm). Qed.
+Print Assumptions C11_plane_to_rectangle_partial.
+Example C11_plane_to_rectangle_partial_nonvacuous :
+  let pp : V3R := V 0 0 0 in let pn : V3R := V 0 0 1 in
+  let c : V3R := V 0 0 3 in let a0 : V3R := V 1 0 0 in let a1 : V3R := V 0 1 0 in
+  dot pn pn = 1 /\ 0 <= 2 /\ plane_rectangle_band_ok pp pn c a0 a1 2 2 /\
+  exists c1 c2, plane_to_rectangle pp pn c a0 a1 2 2 = (3, c1, c2, 1%nat).
+Proof. exact plane_to_rectangle_nonvacuous_above. Qed.
+Theorem C11_plane_to_rectangle_refuted :
+  exists pp pn c a0 a1 l0 l1 d c1 c2 arm,
+    dot pn pn = 1 /\ dot a0 a0 = 1 /\ dot a1 a1 = 1 /\ dot a0 a1 = 0 /\ 0 <= l0 /\ 0 <= l1 /\
+    plane_to_rectangle pp pn c a0 a1 l0 l1 = (d, c1, c2, arm) /\ ~ optimal (plane_set pp pn) (rectangle_set c a0 a1 l0 l1) d.
+Proof. exact plane_to_rectangle_optimal_refuted. Qed.
+Print Assumptions C11_plane_to_rectangle_refuted.
+
+Theorem C11_plane_to_box_partial (pp pn : V3R) (T : Pose R) (sz : V3R) d c1 c2 arm :
+  dot pn pn = 1 -> 0 <= vx sz -> 0 <= vy sz -> 0 <= vz sz -> plane_box_band_ok pp pn T sz ->
+  plane_to_box pp pn T sz = (d, c1, c2, arm) -> optimal (plane_set pp pn) (box_of T sz) d.
+Proof. exact (plane_to_box_optimal_partial pp pn T sz d c1 c2 arm). Qed.
+Print Assumptions C11_plane_to_box_partial.
+Example C11_plane_to_box_partial_nonvacuous :
+  let pp : V3R := V 0 0 0 in let pn : V3R := V 0 0 1 in
+  let T : Pose R := P ident (V 0 0 0) in let sz : V3R := V 2 2 2 in
+  dot pn pn = 1 /\ is_rotation (rot T) /\ 0 <= vx sz /\ 0 <= vy sz /\ 0 <= vz sz /\
+  plane_box_band_ok pp pn T sz /\
+  sd_min pp pn (box_vertices T sz) < 0 < sd_max pp pn (box_vertices T sz) /\
+  exists x, plane_to_box pp pn T sz = (0, x, x, 0%nat) /\ plane_set pp pn x /\ box_of T sz x.
+Proof. exact plane_to_box_nonvacuous. Qed.
+Theorem C11_plane_to_box_refuted :
+  exists pp pn T sz d c1 c2 arm,
+    dot pn pn = 1 /\ is_rotation (rot T) /\ 0 < vx sz /\ 0 < vy sz /\ 0 < vz sz /\
+    plane_to_box pp pn T sz = (d, c1, c2, arm) /\ ~ optimal (plane_set pp pn) (box_of T sz) d.
+Proof. exact plane_to_box_optimal_refuted. Qed.
+Print Assumptions C11_plane_to_box_refuted.
